@@ -114,6 +114,122 @@ def progress : List (Int × Int) → Int
   | [] => 0
   | (p, w) :: r => p * w + progress r
 
+/-! ## Given, missing and materialised stage weights
+
+What a package gives for one stage is `some u` (a `stage-weight`, already in units; an unparsable
+text counts as `some 0`, which is what the loader's `except ValueError` makes of it) or `none`
+(the stage has no `status-report` entry, or an entry with other keys only).  The loader
+(`FlowIR.inject_default_values`) first **stores** the default `0.0` into the status report of
+such a stage and then validates; so the report it leaves behind has a `stage-weight` for every
+stage.  `StatusMonitor.__init__` reads that report key by key inside a bare `try/except`; a
+stage whose key it cannot read is given the sentinel `fallbackWeight * 1000` (= `1000/n`), which
+makes its own properness test fail and replaces ALL weights by `1/n`. -/
+
+/-- the weight list the loader validates: a missing weight counts as the default 0.0 -/
+def givenUnits : List (Option Int) → List Int
+  | [] => []
+  | none :: r => 0 :: givenUnits r
+  | some u :: r => u :: givenUnits r
+
+/-- the loaded weights of a package that gives `gs` -/
+def load (gs : List (Option Int)) : List Int := normalize (givenUnits gs)
+
+/-- the status report after loading, as `StatusMonitor` sees it: every stage has the key -/
+def loadReport (gs : List (Option Int)) : List (Option Int) := (load gs).map some
+
+/-- `fallbackWeight * 1000` of `StatusMonitor.__init__` for `n` stages, in units (rounded down) -/
+def sentinel (n : Nat) : Int := 1000 * one / (n : Int)
+
+/-- `StatusMonitor.__init__` reading a status report of `n` stages key by key -/
+def readReport (n : Nat) : List (Option Int) → List Int
+  | [] => []
+  | none :: r => sentinel n :: readReport n r
+  | some u :: r => u :: readReport n r
+
+/-- the list `StatusMonitor` reports with, from the report it is handed (`none` = uniform `1/n`) -/
+def monitorFromReport (r : List (Option Int)) : Option (List Int) :=
+  monitorWeights (readReport r.length r)
+
+/-- A loader that validates with the default but does NOT store it (the report keeps its holes). -/
+def loadReportNoDefault (gs : List (Option Int)) : List (Option Int) :=
+  if proper (givenUnits gs) then gs else (fallback gs.length).map some
+
+/-! ## Stage progress from the controller's component bookkeeping
+
+`Controller.get_stage_status k` = (components of stage `k` in the FINISHED state) / (components of
+stage `k`), both taken from the graph as it is at the time of the call.  A stage is modelled by
+the list of the done-flags of its current population; a DoWhile that instantiates its next
+iteration appends unfinished components to the stage. -/
+
+/-- number of finished components -/
+def finishedCount : List Bool → Nat
+  | [] => 0
+  | true :: r => finishedCount r + 1
+  | false :: r => finishedCount r
+
+/-- (finished, population) of a stage as it is now -/
+def stageProgress (s : List Bool) : Nat × Nat := (finishedCount s, s.length)
+
+/-- controller operations that matter for progress -/
+inductive CtlOp where
+  /-- component `i` (position in the stage's population) of stage `k` reaches FINISHED -/
+  | fin (k i : Nat)
+  /-- stage `k` gains `m` new (unfinished) components: next DoWhile iteration -/
+  | grow (k m : Nat)
+  /-- somebody asks for the progress of stage `k` -/
+  | query (k : Nat)
+
+/-- Controller state: the stages, plus (for the stale variant only) the population remembered
+at the first query of a stage. -/
+structure Ctl where
+  stages : List (List Bool)
+  remembered : List (Option Nat)
+
+def setAt {α : Type} : List α → Nat → α → List α
+  | [], _, _ => []
+  | _ :: r, 0, a => a :: r
+  | x :: r, i + 1, a => x :: setAt r i a
+
+def modifyAt {α : Type} (f : α → α) : List α → Nat → List α
+  | [], _ => []
+  | x :: r, 0 => f x :: r
+  | x :: r, i + 1 => x :: modifyAt f r i
+
+def step (c : Ctl) : CtlOp → Ctl
+  | .fin k i => { c with stages := modifyAt (fun s => setAt s i true) c.stages k }
+  | .grow k m => { c with stages := modifyAt (fun s => s ++ List.replicate m false) c.stages k }
+  | .query k =>
+    match c.remembered.getD k none with
+    | some _ => c
+    | none => { c with remembered := setAt c.remembered k (some ((c.stages.getD k []).length)) }
+
+def run (c : Ctl) : List CtlOp → Ctl
+  | [] => c
+  | o :: r => run (step c o) r
+
+/-- what `get_stage_status k` answers in state `c` -/
+def queryStage (c : Ctl) (k : Nat) : Nat × Nat := stageProgress (c.stages.getD k [])
+
+/-- a variant that keeps the denominator of the first query (for the witness) -/
+def queryStageStale (c : Ctl) (k : Nat) : Nat × Nat :=
+  (finishedCount (c.stages.getD k []),
+   match c.remembered.getD k none with
+   | some p => p
+   | none => (c.stages.getD k []).length)
+
+/-- common denominator of the stage fractions: the product of the populations -/
+def prodLen : List (List Bool) → Int
+  | [] => 1
+  | s :: r => (s.length : Int) * prodLen r
+
+/-- progress numerator of stage `s` over the common scale `D` -/
+def scaled (D : Int) (s : List Bool) : Int := (finishedCount s : Int) * (D / (s.length : Int))
+
+/-- the total a status check reports when it reads all stages of one controller state:
+`Σ_k w_k · finished_k / population_k`, numerator over `prodLen stages · one` -/
+def totalOfStages (stages : List (List Bool)) (ws : List Int) : Int :=
+  progress ((stages.map (scaled (prodLen stages))).zip ws)
+
 /-- The algorithm before the repair (kept for the witnesses): `ts` are the truncated
 thousandths `int(w*1000)` computed by CPython. -/
 def keptOld (ts : List Int) : Bool := decide (sum ts = 1000)
